@@ -64,9 +64,9 @@ type RRR struct {
 }
 
 type RMsg struct {
-	ID, Flags      uint16
-	Q              []RQ
-	An, Ns, Ar     []RRR
+	ID, Flags  uint16
+	Q          []RQ
+	An, Ns, Ar []RRR
 }
 
 // Comp selects how the reference writer uses RFC 1035 §4.1.4 compression.
@@ -79,12 +79,12 @@ type Comp struct {
 
 // NameEnc says how one name ended up on the wire.
 type NameEnc struct {
-	Off     int  // offset of the name field
-	Ptr     bool // ends in a pointer
-	Target  int  // pointer target
-	Lead    int  // labels written before the pointer
-	Depth   int  // pointer hops needed to expand it
-	ToRoot  bool // the pointer designates a bare root label
+	Off    int  // offset of the name field
+	Ptr    bool // ends in a pointer
+	Target int  // pointer target
+	Lead   int  // labels written before the pointer
+	Depth  int  // pointer hops needed to expand it
+	ToRoot bool // the pointer designates a bare root label
 }
 
 type packer struct {
@@ -191,13 +191,13 @@ func (m *RMsg) Pack(c Comp) ([]byte, []NameEnc) {
 // whether the name satisfies the strict reading of RFC 1035.
 type Walk struct {
 	Labels  Name
-	End     int    // offset just after the name field (valid when the first segment is well formed)
+	End     int // offset just after the name field (valid when the first segment is well formed)
 	EndOK   bool
 	Err     string // "", "truncated", "ptr-self", "ptr-forward", "ptr-oob", "loop", "reserved-label"
 	Strict  bool   // every pointer targets an offset before the start of the segment holding it, no reserved label type, wire length <= 255
 	InBand  bool   // some pointer targets s <= t < p (inside its own segment, before itself)
 	Ptrs    int
-	Header  bool   // a pointer targets an offset < 12
+	Header  bool // a pointer targets an offset < 12
 	WireLen int
 }
 
